@@ -48,7 +48,7 @@ CHECKS = {
    note="Trusted: sink journal tagging of the API call in flight. A short count with nil error is not injected (violates io.Writer)."),
  "C15": dict(level="fault_enumeration", design="DESIGN.md §4 C15",
    technique="deterministic simulation with read fault injection and owned delivery schedules: unreadable byte at every position, error on every seek call, five benign fragmentation policies; six reader modes",
-   text="Each generated file is read under five benign delivery policies (result incl. terminal condition must not change) and with an unreadable byte at EVERY position (three error-delivery variants) and an error on EVERY seek call, through the lexer (validation off/on), the scan iterator and the indexed iterator in 3 orders: records must be a prefix of the fault-free result and, whenever the source actually returned the error to the library, the read must end with a non-EOF error. Positions are exhaustive per file; files are sampled.",
+   text="Each generated file is read under five benign delivery policies (result incl. terminal condition must not change) and with an unreadable byte at EVERY position incl. in place of EOF (three error-delivery variants) and an error on EVERY seek call, through the lexer (validation off/on), the scan iterator, the indexed iterator in 3 orders, Info and random access to every indexed attachment / metadata record: records must be a prefix of the fault-free result and, whenever the source actually returned the error to the library, the read must end with a non-EOF error. Positions are exhaustive per file; files are sampled.",
    note="Trusted: simulated source (delivery sizes are a hash of offset, so zstd's reader goroutine cannot change them). A one-shot error returned together with enough bytes is not injected because io.ReadFull itself discards it."),
  "C03": dict(level="exploration", design="DESIGN.md §4 C03",
    technique="deterministic simulation over reference-encoder layouts: exhaustive seed-free sweep of all <=3x3 files on a 4-value time domain (1 channel) plus a 2-channel slice, and seeded search over larger tie-heavy files; oracle exact sort / exactly-once / in-chunk tie order / repeatability",
@@ -56,7 +56,7 @@ CHECKS = {
    note="Trusted: refmcap encoder (pinned by selftest), harness oracle. exhaustive=false because the 2-channel sweep is a slice."),
  "C10": dict(level="exploration", design="DESIGN.md §4 C10",
    technique="deterministic simulation with stored-byte fault injection observed at the process boundary: field-aware hostile mutations of spec-valid files, splices and random bytes, every decode entry point, in batch processes with RLIMIT_AS that announce each input; oracle no panic / process alive / CPU watchdog / allocation ceilings",
-   text="Hostile inputs (every length/offset/size/count/crc/opcode field of reference-encoded files set to boundary and huge values, truncation, duplication, splicing, opcode changes incl. nested chunks, random bytes) go through the lexer under 8 option sets, all Parse* functions, NewReader/Info/Messages in 4 modes and random access at indexed and hostile offsets, inside a child process with an 8 GiB address-space cap that names the input before running it: no panic, no process death, no hang (CPU watchdog per evaluation), allocation per entry within the documented ceilings. Seeded sampling, not coverage-guided.",
+   text="Hostile inputs (every length/offset/size/count/crc/opcode field of reference-encoded files set to boundary and huge values, truncation, duplication, splicing, opcode changes incl. nested chunks, compressed chunks whose stream is shorter / longer than declared or whose zstd / lz4 frame header declares a huge content size, random bytes) go through the lexer under 8 option sets, all Parse* functions, NewReader/Info/Messages in 4 modes and random access at indexed and hostile offsets, inside a child process with an 8 GiB address-space cap that names the input before running it: no panic, no process death, no hang (CPU watchdog per evaluation), allocation per entry within the documented ceilings. Seeded sampling, not coverage-guided.",
    note="Trusted: process isolation and in-flight file, runtime.MemStats accounting. Decompression bombs are allowed for (bound grows with bytes returned). After two entries allocated a permitted >512 MiB buffer for one input, the remaining unlimited entries are skipped for that input (counted)."),
  "C11": dict(level="exploration", design="DESIGN.md §4 C11",
    technique="deterministic simulation over reference-encoder layouts: each content encoded plain and decorated (unknown-opcode records at top level / in chunks / at summary group boundaries, trailing bytes on every extensible record); all Go readers compared with the model",
@@ -68,8 +68,8 @@ CHECKS = {
    note="Trusted: refmcap encoder (every layout is validated by refmcap before use). Indexed reads are compared only for files that actually carry chunk indexes + repeated channels/schemas and keep every message in a chunk."),
  "C13": dict(level="exploration", design="DESIGN.md §4 C13",
    technique="deterministic simulation with an owned cooperative scheduler: caller tasks parked before every API call and released one at a time from a seeded schedule; plus repetition over map insertion orders and GOMAXPROCS settings",
-   text="(i) the same workload is written 8/32 times with every map rebuilt in another insertion order - outputs must be byte-identical; (ii) under GOMAXPROCS 1/2/4/16 - identical; (iii) 2..8 writer/lexer/iterator instances run as goroutines released one API call at a time following a schedule drawn from the seed - every instance's result must equal its solo run. Clause (i) is decided by repetition (map iteration order is not seedable); (iii) replays exactly.",
-   note="Trusted: scheduler (one runnable task at a time). Interleaving granularity is the API call: shared state between instances is exposed, races inside one call are not (a -race free-running clause is described in DESIGN.md but not part of the registered commands)."),
+   text="(i) the same workload is written 8/32 times with every map rebuilt in another insertion order - outputs must be byte-identical; (ii) under GOMAXPROCS 1/2/4/16 - identical; (iii) 2..8 writer/lexer/iterator instances run as goroutines released one API call at a time following a schedule drawn from the seed - every instance's result must equal its solo run; (iii') a writer, then other instances to completion, then the same writer again - identical bytes; (iv) the instances as free-running goroutines on 16 OS threads, and once more in a -race build where a data-race report ends the batch process. Clause (i) is decided by repetition (map iteration order is not seedable); (iii) and (iii') replay exactly; (iv) is the one clause whose interleaving is not owned.",
+   note="Trusted: scheduler (one runnable task at a time). Interleaving granularity of (iii) is the API call; races inside one call are left to (iv), whose hits may need several replay attempts (up to 5 x 200 rounds are tried, and a hit is reported even if it does not show again)."),
  "C16": dict(level="exploration", design="DESIGN.md §4 C16",
    technique="deterministic simulation with two real implementations exchanging files through the simulated disk: Go writer -> Python readers and Python writer -> Go readers, both compared with the reference model",
    text="Seeded workloads (valid UTF-8, uncompressed) are written by the Go writer in every configuration and read by the repository's Python StreamReader (validate_crcs), NonSeekingReader and SeekingReader in a subprocess with PYTHONHASHSEED fixed; seeded op lists are written by the Python Writer across its options and read by the Go lexer, scan, indexed iterators and Info. Full content, time-ordered reads, attachments, metadata and statistics are compared with the model. Samples the space.",
